@@ -74,5 +74,19 @@ pub use serde_json;
 
 pub use rscel_macro as macros;
 
+/// Re-exports for the external verification harness crate (/verif). Nothing here changes
+/// behaviour: only names of items that already exist become reachable.
+#[cfg(feature = "verif_hooks")]
+pub mod verif_hooks {
+    pub use crate::compiler::compiled_prog::{CompiledProg, NodeValue, PreResolvedByteCode, PreResolvedCodePoint};
+    pub use crate::compiler::string_scanner::StringScanner;
+    pub use crate::compiler::syntax_error::SyntaxError;
+    pub use crate::compiler::tokens::{FStringSegment, Token};
+    pub use crate::context::{construct_type, verif_funcs};
+    pub use crate::interp::{ByteCode, Interpreter, JmpWhen};
+    pub use crate::types::{CelByteCode, CelBytes};
+    pub use crate::utils::ScopedCounter;
+}
+
 #[cfg(test)]
 mod tests;
